@@ -1,4 +1,4 @@
-"""C13  Whitespace, line endings and comments between tokens do not matter (scanner level)."""
+"""C13  Whitespace, line endings and comments between tokens do not matter (scanners + whole lexer on fixed modules)."""
 import itertools, z3
 from mirsym.core import *
 from mirsym import native
@@ -11,6 +11,7 @@ ASSUMPTIONS = [
     "claimed for the scanners only: skip_ws_and_comments (through the non-generic parsers extension_marker / assignment / optional_comma), line_comment and block_comment are executed from real MIR - nom's generic combinators included - on every string of <= 4 (thorough 5) symbolic characters over {space, tab, LF, CR, '-', '/', '*', 'a', double quote} (plus a concrete 2-byte character in comments); the reference is an independent z3 automaton for X.680 12.6",
     "that every one of the several hundred combinator call sites of the lexer wraps its tokens in skip_ws_and_comments is not decided (character-level whole-grammar parsing is out of reach); a native job re-lays-out a fixed set of modules token boundary by token boundary as a concrete complement",
     "nom's leaf impls for &str are modelled (no MIR for non-generic dependency functions)",
+    "whole lexer (jobs lexer-*): lexer::asn_module runs from real MIR (dump of /verif/pipe-harness) on 3 fixed module texts; at every token boundary (each white-space gap and each zero-width position next to punctuation) a filler with symbolic characters is put - 1 (2) white-space characters over {space, tab, LF, CR}; ` --c1c2 LF`; ` --c1-- `; `/*c1c2*/` with c over {a, space, double quote, {, -, *, /, E, e-acute}, constrained by the X.680 12.6 automaton to be entirely white-space and comments - and the parsed (header, definitions) value must equal the baseline value except for `comments` fields, on every path; differences are confirmed natively",
 ]
 
 
@@ -22,6 +23,10 @@ def jobs(tier, seed):
             js.append(f"skip-{k}-{n}")
     for n in range(0, L + 1):
         js += [f"line-{n}", f"block-{n}"]
+    nl = 8 if tier == "quick" else 16
+    for m in range(len(LEX_MODULES)):
+        for k in range(nl):
+            js.append(f"lexer-{m}-{k}of{nl}")
     return js + ['native']
 
 
@@ -234,9 +239,130 @@ def job_native(prog, chk, tier, seed):
         runner.close()
 
 
+# ---- whole lexer on fixed modules ------------------------------------------------------------------------------------
+LEX_MODULES = [
+    "M DEFINITIONS AUTOMATIC TAGS ::= BEGIN A ::= SEQUENCE { a INTEGER (0..5) OPTIONAL, b BOOLEAN DEFAULT TRUE, ..., c NULL } END",
+    "M DEFINITIONS ::= BEGIN IMPORTS T FROM N; B ::= CHOICE { x T, y [3] IMPLICIT OCTET STRING (SIZE (4)) } v INTEGER ::= 5 END",
+    "M DEFINITIONS EXPLICIT TAGS ::= BEGIN E ::= ENUMERATED { p(1), q, ..., r } L ::= SEQUENCE OF E s UTF8String ::= \"x\" END",
+]
+WS = [32, 9, 10, 13]
+CALPHA = [97, 32, 34, 123, 45, 42, 47, 69, 0xE9]
+ASN_MODULE = 'rasn_compiler::lexer::asn_module'
+
+
+def prepare():
+    from mirsym import pipe
+    pipe.dump()
+
+
+def boundaries(mod):
+    """(position, width): width 1 = replace the single space at position; width 0 = insert at position"""
+    import re
+    out = []
+    for m in re.finditer(r' ', mod):
+        out.append((m.start(), 1))
+    instr = False
+    for i, ch in enumerate(mod):
+        if ch == '"':
+            instr = not instr
+        if instr or i == 0:
+            continue
+        prev = mod[i - 1]
+        if prev == ' ' or ch == ' ':
+            continue
+        # zero-width positions between two tokens that stay separable: next to one-character punctuation
+        pair = prev + ch
+        if pair in ('::', ':=', '..', '[[', ']]'):
+            continue
+        if prev in '{}(),;[]' or ch in '{}(),;[]':
+            out.append((i, 0))
+    return out
+
+
+def templates(tier):
+    t = [('ws1', lambda c: [c[0]], 1, 'ws'), ('line', lambda c: [32, 45, 45, c[0], c[1], 10], 2, 'c'), ('block', lambda c: [47, 42, c[0], c[1], 42, 47], 2, 'c'),
+         ('inline', lambda c: [32, 45, 45, c[0], 45, 45, 32], 1, 'c')]
+    if tier != 'quick':
+        t.append(('ws2', lambda c: [c[0], c[1]], 2, 'ws'))
+    return t
+
+
+def job_lexer(prog, chk, mi, k, n, tier):
+    from mirsym import pipe
+    fn = prog.find(ASN_MODULE)
+    input_ty = prog.inst[fn]['locals'][1]
+    mod = LEX_MODULES[mi]
+    chk.ex.max_path_steps = 5000000
+
+    def parsed(ex, res):
+        ir = scan.IR(ex)
+        r = ir.f(res)
+        if ir.vn(r) != 'Ok':
+            return ('err', None)
+        return ('ok', ir.f(r.fields[0]).fields[1])
+    base = chk.explore(lambda ex: parsed(ex, ex.call(fn, [mk_input(ex, prog, input_ty, [ord(c) for c in mod])])))
+    if len(base) != 1 or base[0].kind != 'ok' or base[0].value[0] != 'ok':
+        chk.res.inconclusive.append(f"baseline parse of module {mi}: {[(r.kind, str(r.value)[:200]) for r in base[:2]]}")
+        return
+    bval = base[0].value[1]
+    runner = native.Runner()
+    nbase = runner.compile(mod)
+    bs = boundaries(mod)
+    work = [(b, t) for b in bs for t in templates(tier)]
+    # quick: white-space at every boundary, comment templates at every third boundary
+    if tier == 'quick':
+        work = [(b, t) for j, b in enumerate(bs) for t in templates(tier) if t[0] == 'ws1' or j % 3 == (mi % 3)]
+    try:
+        for (pos, width), (tname, mk, nsym, alpha) in work[k::n]:
+            cs = [z3.BitVec(f"c{i}", 32) for i in range(nsym)]
+            filler = mk(cs)
+            chars = [ord(c) for c in mod[:pos]] + filler + [ord(c) for c in mod[pos + width:]]
+            skipped, unterminated = ref_skip(filler + [88])
+            left, right = mod[:pos].split()[-1][-8:], mod[pos + width:].split()[0][:8]
+            sig = f"C13 lexer module {mi} {tname} between '{left}' and '{right}'"
+
+            def run(ex, cs=cs, chars=chars, alpha=alpha):
+                for c in cs:
+                    ex.assume(z3.Or([c == a for a in (WS if alpha == 'ws' else CALPHA)]))
+                ex.assume(z3.And(skipped == len(filler), z3.Not(unterminated)))
+                return parsed(ex, ex.call(fn, [mk_input(ex, prog, input_ty, chars)]))
+            for r in chk.explore(run):
+                if r.kind != 'ok':
+                    if r.kind == 'panic':
+                        chk.violation(sig + ' panic', f"lexer panics: {r.value[0]}", {'kind': 'text', 'text': mod})
+                    continue
+                chk.res.obligations += 1
+                d = 'parse error' if r.value[0] != 'ok' else pipe.values_differ(prog, bval, r.value[1])
+                if d is None:
+                    chk.res.discharged += 1
+                    continue
+                m = chk.model_of(r.pc)
+                fl = ''.join(chr(model_int(m, c, False)) if not isinstance(c, int) else chr(c) for c in filler) if m is not None else None
+                text = mod[:pos] + (fl or '') + mod[pos + width:]
+                out = runner.compile(text)
+                same = out.get('ok') == nbase.get('ok') and (not out.get('ok') or strip_doc(out['generated']) == strip_doc(nbase['generated']))
+                if not same:
+                    chk.violation(sig, f"filler {fl!r} at offset {pos} changes the outcome ({d}): {text!r}", {'kind': 'text', 'text': text})
+                else:
+                    chk.res.inconclusive.append(f"not reproduced natively: {sig}: {d} with {fl!r}")
+            chk.witness('lexer boundary explored', True)
+        chk.sample({'module': mi, 'boundaries': len(bs), 'work_items': len(work[k::n])})
+    finally:
+        runner.close()
+    chk.res.bounds = {'modules': len(LEX_MODULES), 'filler': 'ws1, line(2), block(2), inline(1) [+ws2]', 'boundaries': len(bs)}
+
+
 def run_job(prog, job, tier, seed):
-    chk = Checker(prog, job)
     p = job.split('-')
+    if p[0] == 'lexer':
+        from mirsym import pipe
+        from mirsym.harness import program
+        pprog = program(pipe.dump())
+        chk = Checker(pprog, job)
+        k, n = p[2].split('of')
+        job_lexer(pprog, chk, int(p[1]), int(k), int(n), tier)
+        return chk.res
+    chk = Checker(prog, job)
     if p[0] == 'skip':
         job_skip(prog, chk, p[1], int(p[2]), tier)
     elif p[0] == 'line':
